@@ -368,15 +368,34 @@ fn cmd_run(args: &[String]) -> i32 {
                 // seen in this batch, not in isolation: the outcome depends on state the library keeps
                 // across requests within one process (the simulator itself is deterministic, see
                 // selftest-determinism).  Still a violation; the replay file names the run by seed and index.
-                reported = runner::write_seed_replay(
-                    spec.id,
-                    seed,
-                    f.index,
-                    thorough,
-                    &f.class,
-                    &format!("{} -- observed in the batch but not when this run is executed alone in a fresh process: the outcome depends on state kept across requests inside the process", f.msg),
-                );
-                note = " (not reproducible in isolation: depends on process-wide state kept across requests)".into();
+                // The replay file then also lists the runs the same worker thread had executed before, and
+                // replaying it executes them first; the shortest suffix of that history that reproduces in a
+                // fresh process is kept.
+                let text = format!("{} -- observed in the batch but not when this run is executed alone in a fresh process: the outcome depends on state kept across requests inside the process", f.msg);
+                let mut lens: Vec<usize> = Vec::new();
+                let mut l = 1usize;
+                while l < f.prefix.len() {
+                    lens.push(l);
+                    l *= 2;
+                }
+                lens.push(f.prefix.len());
+                let mut reproduced = false;
+                for l in lens {
+                    if l == 0 {
+                        continue;
+                    }
+                    let suffix = &f.prefix[f.prefix.len() - l..];
+                    reported = runner::write_history_replay(spec.id, seed, f.index, suffix, thorough, &f.class, &text);
+                    if fresh(&reported) {
+                        reproduced = true;
+                        note = format!(" (depends on state kept across requests inside the process: the replay file executes {} earlier run(s) of the same worker first)", l);
+                        break;
+                    }
+                }
+                if !reproduced {
+                    reported = runner::write_seed_replay(spec.id, seed, f.index, thorough, &f.class, &text);
+                    note = " (not reproducible in isolation: depends on process-wide state kept across requests)".into();
+                }
             }
         }
         println!("violation class={} run_index={} msg={}{}", small.class, small.index, small.msg, note);
